@@ -46,6 +46,9 @@ async def gated(*a: Any, **k: Any) -> str:
     gates.append(fut)
     try:
         await fut
+    except asyncio.CancelledError as e:
+        calls.append(("gated-cancelled", repr(e.args), ""))       # the message given to cancel()/cancel_group()/cancel_all() arrives here
+        raise
     finally:
         if fut in gates:
             gates.remove(fut)
